@@ -104,10 +104,15 @@ def spec_to_code(ctx, gutils, Grid, cfg):
             # a smaller grid that the polygon sticks out of (on the right / top / left / bottom, by turns): exactly the cells of
             # THAT grid whose centres are inside
             if n % 6 == 0:
-                k4 = (n // 6) % 4
-                ncs, nrs = max(1, nq // 2 + 1), max(1, nq // 2)
-                ox = 0 if k4 in (0, 1) else nq - ncs
-                oy = 0 if k4 in (0, 2) else nq - nrs
+                k4 = (n // 6) % 8
+                if k4 < 4:
+                    ncs, nrs = max(1, nq // 2 + 1), max(1, nq // 2)
+                elif k4 < 6:
+                    ncs, nrs = nq, max(1, nq // 3)                  # wide grid: more columns than rows
+                else:
+                    ncs, nrs = max(1, nq // 3), nq                  # tall grid
+                ox = 0 if k4 in (0, 1, 4, 5, 6) else nq - ncs
+                oy = 0 if k4 in (0, 2, 4, 6, 7) else nq - nrs
                 try:
                     small = Grid("s", ncs, nrs, cellsize=1.0, xllcorner=q0 - 0.5 + ox, yllcorner=q0 - 0.5 + oy)
                     dfs = small.cells_inside_polygon(np.array(c["poly"], dtype=float))
